@@ -47,7 +47,8 @@ PROBES = ["unset_below_non_default_ancestor", "set_on_sibling", "invalid_value_r
           "instance_write_to_class_only_setting_rejected", "per_call_method_override",
           "instance_override_then_unset", "native_anim_max_bytes_shared",
           "render_reveals_lines", "render_reveals_whole", "render_reveals_jpeg",
-          "render_reveals_png", "animated_draw_reveals_method", "setting_on_abstract_ancestor"]
+          "render_reveals_png", "animated_draw_reveals_method", "setting_on_abstract_ancestor",
+          "iterator_rerender_reveals_method"]
 COMPONENTS = {
     "real": ["BaseImage.set_render_method (class and instance forms)", "ImageMeta.forced_support",
              "ITerm2ImageMeta + ClassInstanceProperty / ClassProperty descriptors",
@@ -226,6 +227,33 @@ def run(ch, ctx, fault=None):
                    "commands": cmds, "expected_commands": want}, "render")
             if pending_nontrivial[0]:
                 ctx.nontrivial = True
+
+        def iterate_check(n, obj, own, desc, override):
+            """The image iterator renders frame by frame, caches, and re-renders cached frames
+            when the image size changed in between: every one of those renders has to use the
+            effective method (or the override given in the iterator's format spec)."""
+            eff = override.lower() if override else inst_effective(n, own, "method")
+            spec = "1.1" + ("+" + override[0].upper() if override else "")
+            frames = []
+            try:
+                it = ti_image.ImageIterator(obj, 2, spec, True)
+                try:
+                    frames += [next(it), next(it)]          # first loop: rendered and cached
+                    obj.set_size(width=2, height=2)
+                    frames += [next(it), next(it)]          # second loop: stale, re-rendered
+                finally:
+                    it.close()
+                    obj.set_size(width=3, height=2)
+            except Exception as e:
+                raise Violation("render_raised", {"exc": repr(e), "class": n.name}, "iterate")
+            ctx.probe("iterator_rerender_reveals_method")
+            want = 2 if eff == "lines" else 1
+            for j, fr in enumerate(frames):
+                cmds = count_commands(fr, n.family)
+                check(cmds == want, "render_did_not_use_the_effective_method",
+                      {"after": desc, "class": n.name, "effective": eff, "override": override,
+                       "iterator_frame": j, "commands": cmds, "expected_commands": want},
+                      "iterate")
 
         def expect(fn, exc_names, desc):
             """Run fn; returns True if accepted, False if rejected with one of exc_names."""
@@ -406,6 +434,16 @@ def run(ch, ctx, fault=None):
                         raise Violation("instance_construction_failed",
                                         {"class": n.name, "exc": repr(e)}, "render")
                     who = "%s()" % n.name
+                if any(o is obj for o in anim_objs) and ch.bool("via_iter", 0.35):
+                    override = ch.pick("override_i", (None, "lines", "whole") +
+                                       (("anim",) if n.family == "iterm2" else ()))
+                    desc = "iterate %s twice with a resize in between%s" % (
+                        who, " spec +%s" % override[0].upper() if override else "")
+                    iterate_check(n, obj, own, desc, override)
+                    ctx.op(desc)
+                    key.append(desc)
+                    read_all(desc)
+                    continue
                 via_draw = ch.bool("via_draw", 0.4)
                 if via_draw:
                     override = ch.pick("override_d", (None, "lines", "LINES", "Lines", "whole",
